@@ -440,6 +440,8 @@ CHECKS = {
             T('MC_Surveyor', 'Surveyor_quick.cfg'),
             T('MC_Surveyor', 'Surveyor_full.cfg', tiers=('thorough',), timeout=2400),
             C('surveyor', 'TestSurveyor', 'TraceSurveyor', n={'quick': 120, 'thorough': 1500}),
+            C('surveyorscn', 'TestSurveyor', 'TraceSurveyor', file='surveyor', n={'quick': 150, 'thorough': 4000},
+              scn=[('MC_SurvScn', {'quick': ['SurvScn_a5.cfg'], 'thorough': ['SurvScn_a.cfg', 'SurvScn_b.cfg']})]),
             C('respondent', 'TestRespondent', 'TraceRespondent', n={'quick': 40, 'thorough': 400}),
             T('MC_RawSock', 'Raw_xsurveyor.cfg'), R('xsurveyor', 'xsurveyor'), R('xrespondent', 'xrespondent'),
             C('opts', 'TestOptions', 'TraceOptions', trivial_len=5, vtimeout=3000, env={'VERIF_OPTS_ONLY': 'surveyor'}),
